@@ -20,11 +20,11 @@ GrowthObjs(a, b) == b.len - a.len
 PhaseOk(h) ==   \* evaluated when heap event h (index k >= 4) arrives: compare phases k-1 -> k
   LET k == Len(heaps) + 1 IN
   k < 4 \/ (Growth(heaps[k - 1], h) <= SlackBytes /\ GrowthObjs(heaps[k - 1], h) <= SlackObjs)
-\* (h.id = packets per phase of the workload, 0 if not given: Go maps do not shrink, so an interceptor whose per-packet maps
-\* held many entries at their peak keeps the emptied bucket arrays for as long as it is reachable - 80 bytes per packet of a
-\* phase are allowed for; found by the thorough tier, 60 000 packets per phase, on rtpfb with feedback.  Growth from phase to
-\* phase is held to the plain slack whatever the phase length.)
-FinalOk(h) == Growth(heaps[1], h) <= 2 * SlackBytes + 80 * h.id /\ GrowthObjs(heaps[1], h) <= 2 * SlackObjs
+\* (at "final" the application has dropped the closed chain AND the readers / writers it still held of unbound streams: what
+\* remains is what the interceptors keep alive themselves - goroutines, timers, registries.  An earlier version of the
+\* harness kept the stale readers, the whole interceptor stayed reachable through them and the thorough tier, 60 000
+\* packets per phase, saw the emptied maps of rtpfb: a false alarm, corrected in the harness, not by an allowance.)
+FinalOk(h) == Growth(heaps[1], h) <= 2 * SlackBytes /\ GrowthObjs(heaps[1], h) <= 2 * SlackObjs
 \* "unbound": measured while the interceptor is still open, after many streams were bound, used and unbound again - the heap
 \* must be back near the level it had BEFORE they were bound (heap event 2), not at the level of the peak
 \* (h.id = number of streams that were bound and unbound: the HARNESS keeps a few map entries per SSRC it has ever used -
